@@ -128,6 +128,9 @@ def scenarios(tier: str, fix: str = "") -> List[Dict[str, Any]]:
                       [("req", 0), ("req", 1), ("wait", 0), ("wait", 1)], fix))
     S.append(scenario("roomy-measure-buffer-then-create-same-key", 1, [], [M("create", 1, 0, 1, room=2), M("create", 1, 0, 2)], [],
                       [("req", 0), ("wait", 0), ("req", 1), ("wait", 1)], fix))
+    # the link is ahead of the program: three responses of one request wait before the instruction has run
+    S.append(scenario("recv-measure-3-early", 1, [], [M("recv", 1, 0, 3)], [dict(remote=1, sock=0, type="M", n=3)],
+                      [("nop",), ("req", 0), ("wait", 0)], fix))
     # the same subroutine (declare the results array, request, wait) run twice by one application: the second wait may
     # only resume on the second request's results
     S.append(scenario("same-request-subroutine-twice", 1, [], [M("create", 1, 0, 1)], [],
